@@ -33,9 +33,23 @@ BODY = '''{ind}while True:
 
 YIELD = '''{ind}    elif _op == "yield":
 {ind}        yield _val
+{ind}    elif _op == "deleg":
+{ind}        yield from S.delegate(_val)
+{ind}    elif _op == "deleg_catch":
+{ind}        try:
+{ind}            yield from S.delegate(_val)
+{ind}        except S_Boom:
+{ind}            S.caught()
 '''
 AWAIT = '''{ind}    elif _op == "await":
 {ind}        await Suspender()
+{ind}    elif _op == "deleg":
+{ind}        await S.delegate(_val)
+{ind}    elif _op == "deleg_catch":
+{ind}        try:
+{ind}            await S.delegate(_val)
+{ind}        except S_Boom:
+{ind}            S.caught()
 '''
 
 
